@@ -160,21 +160,24 @@ var reGo = regexp.MustCompile(`(?m)^goroutine (\d+) \[([^\]]*)\]:\n([^\n]*)`)
 func Census() []string {
 	buf := make([]byte, 1<<20)
 	n := runtime.Stack(buf, true)
-	var out []string
-	me := ""
-	for _, blk := range strings.Split(string(buf[:n]), "\n\n") {
+	blks := strings.Split(string(buf[:n]), "\n\n")
+	// the caller's bubble (goroutines abandoned in an earlier, hung bubble do not count)
+	mine := ""
+	for _, blk := range blks {
 		m := reGo.FindStringSubmatch(blk)
-		if m == nil {
+		if m != nil && strings.HasPrefix(m[2], "running") {
+			if i := strings.Index(m[2], "synctest bubble"); i >= 0 {
+				mine = strings.TrimSpace(m[2][i:])
+			}
+		}
+	}
+	var out []string
+	for _, blk := range blks {
+		m := reGo.FindStringSubmatch(blk)
+		if m == nil || mine == "" || !strings.HasSuffix(strings.TrimSpace(m[2]), mine) {
 			continue
 		}
-		if !strings.Contains(m[2], "synctest bubble") {
-			continue
-		}
-		if strings.HasPrefix(m[2], "running") {
-			me = m[1]
-			continue
-		}
-		if strings.HasPrefix(m[2], "synctest.Run") {
+		if strings.HasPrefix(m[2], "running") || strings.HasPrefix(m[2], "synctest.Run") {
 			continue
 		}
 		fn := firstMangosFrame(blk)
@@ -183,7 +186,6 @@ func Census() []string {
 		}
 		out = append(out, m[2][:strings.Index(m[2]+",", ",")]+" @ "+fn)
 	}
-	_ = me
 	return out
 }
 
